@@ -117,10 +117,35 @@ def namespace_ops(w, rng, sess="P"):
     def q(n):
         return '"%s"' % n
 
+    deep = 0
     for _ in range(rng.randint(3, 9)):
-        k = rng.choice(["create", "create", "append", "append", "subscribe", "unsubscribe", "delete", "rename", "store"])
+        k = rng.choice(["create", "create", "append", "append", "subscribe", "unsubscribe", "delete", "rename", "store",
+                        "deepcreate", "renameinbox", "recreate"])
         n = rng.choice(names)
-        if k == "create":
+        if k == "deepcreate":
+            # all superior levels are missing
+            deep += 1
+            n = f"top{rng.randint(1, 99)}x{deep}/mid/leaf"
+            names.append(n)
+            cmd = f"n CREATE {q(n)}"
+        elif k == "renameinbox":
+            # RENAME INBOX moves the messages away and leaves an empty inbox: what arrives afterwards starts afresh
+            w.cmd(sess, "n SELECT inbox")
+            w.cmd(sess, "n STORE 1:* +FLAGS (\\Flagged kw1)")
+            w.cmd(sess, "n UNSELECT")
+            w.cmd(sess, f"n RENAME inbox {q('was' + str(rng.randint(1, 999)))}")
+            lit = W.make_msg(rng.randint(100, 999))
+            w.cmd(sess, f"n APPEND inbox {{{len(lit)}}}\r\n" + lit.decode())
+            cmd = f"n APPEND inbox (\\Seen) {{{len(lit)}}}\r\n" + lit.decode()
+        elif k == "recreate":
+            # a mailbox with an inferior is deleted (it stays as a placeholder) and created again: new messages start afresh
+            w.cmd(sess, "n CREATE pp/kid")
+            lit = W.make_msg(rng.randint(100, 999))
+            w.cmd(sess, f"n APPEND pp (\\Flagged kw2 \\Answered) {{{len(lit)}}}\r\n" + lit.decode())
+            w.cmd(sess, "n DELETE pp")
+            w.cmd(sess, "n CREATE pp")
+            cmd = f"n APPEND pp {{{len(lit)}}}\r\n" + lit.decode()
+        elif k == "create":
             cmd = f"n CREATE {q(n)}"
         elif k == "append":
             lit = W.make_msg(rng.randint(100, 999))
@@ -182,6 +207,9 @@ def _restart_case(seed):
             before = observe(w)
             names = list(w.sessions)
             w.restart()
+            # what IMAPUserServer.run() does before it serves anybody: find the folders on disk, look at each of them
+            w.run(w.server.find_all_folders())
+            w.run(w.server.check_all_folders())
             for nm in names:
                 w.session(nm)
             after = observe(w)
